@@ -3,5 +3,6 @@ CONSTANTS MaxHist = 2
   CfgIds = {1, 2, 3, 4}
   DeepCfgIds = {1, 2}
   StmtAct = FALSE
+  LibIds <- AllLibIds
 INVARIANTS TypeOK ResetRestores Laws
 PROPERTY Untouched
